@@ -732,7 +732,7 @@ func partReceiptsRealBinary(c *check.Ctx, a *acc) {
 	}
 	defer p.Kill()
 	started := time.Now()
-	for k := 0; k < 1000 && hds.Secret() == ""; k++ {
+	for k := 0; k < 4000 && hds.Secret() == ""; k++ {
 		time.Sleep(10 * time.Millisecond)
 	}
 	if hds.Secret() == "" {
